@@ -86,6 +86,8 @@ def tok(fn, reg):
   inner = [x for x in dflt if callable(x)]
   if stem == 'mfdeviceset' and inner:
     return [13] + tok(inner[0], reg)
+  if stem == 'adevice' and inner:           # fix 0f214fb: the getter's reshaping wrapper around the user's closure
+    return [15] + tok(inner[0], reg)
   if stem == 'deviceset' and inner:
     i = dflt[0]
     return [14, int(i[0]), int(i[1])] + tok(inner[0], reg)
